@@ -161,7 +161,7 @@ def one_builder(ctx):
     builders = set()
     for fi in ci.methods.values():
         for c in calls_in(fi.node):
-            if call_attr(c) == 'sendto' and c.args:
+            if call_attr(c) == 'sendto' and c.args and dotted(c.func.value) != 'self':
                 ctx.analysed(fi)
                 o = origins(c.args[0], fi.node)
                 ok = all(isinstance(x, ast.Call) and isinstance(x.func, ast.Attribute) and dotted(x.func.value) == 'self' for x in o)
@@ -236,7 +236,8 @@ def answer_iff_request(ctx):
     ctx.analysed(run)
     cfg = CFG(run.node, m, run.module)
     tests = _discover_tests(cfg)
-    sends = [c for c in calls_in(loop) if call_attr(c) == 'sendto']
+    from sa.lib import deep_calls
+    sends = [site for c, o, site in deep_calls(m, run, lambda c: call_attr(c) == 'sendto') if any(a is loop for a in ancestors(site))]
     recv = [i for c in calls_in(loop) if call_attr(c) == 'recvfrom' for i in cfg.node_of(c)]
     if not sends:
         raise AnchorMissing('no sendto in the receive loop', violation='frappy.protocol.discovery.UDPListener.run:discover request is answered')
@@ -314,9 +315,8 @@ def disabled_means_silent(ctx):
     ctx.analysed(run)
     cfg = CFG(run.node, m, run.module)
     tests = [n.id for n in cfg.nodes if n.kind == 'test' and 'is_enabled' in src(n.ast)]
-    for c in calls_in(run.node):
-        if call_attr(c) != 'sendto':
-            continue
+    from sa.lib import deep_calls
+    for c in [site for x, o, site in deep_calls(m, run, lambda c: call_attr(c) == 'sendto')]:
         ok = False
         for t in tests:
             neg = src(cfg.nodes[t].ast).replace(' ', '').startswith('notself.is_enabled')
